@@ -253,6 +253,23 @@ func (p cfgPath) SetValue(cfg *Config, opt *options, val value) Error {
 	return fields[0].SetValue(opt, node, val)
 }
 
+// container returns the existing config SetValue stores the value (or the
+// first of the missing intermediate objects) in, nil if that is no config.
+func (p cfgPath) container(cfg *Config, opt *options) *Config {
+	node := value(cfgSub{cfg})
+	for fields := p.fields; len(fields) > 1; fields = fields[1:] {
+		v, err := fields[0].GetValue(opt, node)
+		if err != nil || isNil(v) {
+			break
+		}
+		node = v
+	}
+	if sub, ok := node.(cfgSub); ok {
+		return sub.c
+	}
+	return nil
+}
+
 func (n namedField) SetValue(opts *options, elem value, v value) Error {
 	sub, ok := elem.(cfgSub)
 	if !ok {
